@@ -223,4 +223,16 @@ def step (c : Ctx) (ws0 : List String) : Ctx × String :=
   | ["queue"] => (c, queueLine d.st)
   | _ => (c, "bad-op")
 
+/-- top level: `race m … then <stepping call>` is the request followed by the stepping call (the request holds the
+queue lock first: the stepping call waits for it) -/
+def stepTop (c : Ctx) (ws0 : List String) : Ctx × String :=
+  match ws0 with
+  | "race" :: rest =>
+    let req := rest.takeWhile (· ≠ "then")
+    let call := (rest.dropWhile (· ≠ "then")).drop 1
+    let (c1, r1) := step c ("sch" :: req)
+    let (c2, r2) := step c1 call
+    (c2, r1 ++ " ; " ++ r2)
+  | _ => step c ws0
+
 end Driver.Sched
